@@ -293,9 +293,19 @@ def enumerate_cases(atoms, nonneg=True, extra_consts=(), variant_domain=None, co
     const_pos = {("int", c): float(j) for j, c in enumerate(cs)}
     seen = set()
     order_types = []
-    if k and len(cand) ** k > 4000000:
+    # when sums/differences of points are points themselves and the valuation-based enumeration below applies, the generic
+    # enumeration of all order types (exponential in the number of points) is not needed at all
+    val_only = False
+    if nonneg and (not cs or max(cs) <= 4):
+        d0 = [t for t in ints if t[0] == "bin" and t[1] in ("Add", "Sub", "SatSub", "WrappingSub") and len(t) == 4]
+        iset0 = set(ints)
+        d0 = [t for t in d0 if all(x in iset0 or x[0] == "int" for x in (_int_key(t[2]), _int_key(t[3])))]
+        b0 = [t for t in ints if t not in set(d0)]
+        K0 = len(ints) + (max(cs) if cs else 0) + 2
+        val_only = bool(d0) and K0 ** len(b0) <= 400000
+    if k and not val_only and len(cand) ** k > 4000000:
         raise Undecided("too many order types (%d points)" % k)
-    for combo in itertools.product(cand, repeat=k):
+    for combo in (itertools.product(cand, repeat=k) if not val_only else ()):
         # canonical signature: dense ranking
         allv = sorted(set(combo) | set(const_pos.values()))
         rank = {v: i for i, v in enumerate(allv)}
@@ -362,6 +372,8 @@ def enumerate_cases(atoms, nonneg=True, extra_consts=(), variant_domain=None, co
                     realised.append(pos)
                 if realised:
                     order_types = realised
+                elif val_only:
+                    raise Undecided("derived points could not be evaluated")
     if not order_types:
         order_types = [dict(const_pos)]
     vterms = list(variants.keys())
